@@ -9,7 +9,7 @@ from harness import core, py2lean, instantiate
 from harness.core import Outcome, f2b, b2f
 
 ID = "C18"
-LEAN_TARGETS = ["BeyondVerif.Props.C18", "BeyondVerif.Props.C18Series", "BeyondVerif.Witness.C18"]
+LEAN_TARGETS = ["BeyondVerif.Props.C18", "BeyondVerif.Props.C18Hist", "BeyondVerif.Props.C18Series", "BeyondVerif.Witness.C18"]
 THEOREMS = [
     "BeyondVerif.C18.spk_chain",
     "BeyondVerif.C18.spk_offset",
@@ -21,6 +21,13 @@ THEOREMS = [
     "BeyondVerif.C18.de403_routes",
     "BeyondVerif.C18.de403_spk_chain",
     "BeyondVerif.C18.pck_independent",
+    "BeyondVerif.C18.spk_propagator_reverse",
+    "BeyondVerif.C18.spk_propagator_either_direction",
+    "BeyondVerif.C18.spk_attached_frames",
+    "BeyondVerif.C18.spk_as_frame",
+    "BeyondVerif.C18.history_independent",
+    "BeyondVerif.C18.inplace_is_copy",
+    "BeyondVerif.C18.object_tracks_body",
     "BeyondVerif.C18.sun_distance_range",
     "BeyondVerif.C18.moon_distance_range",
     "BeyondVerif.C18.sun_state_entries",
@@ -30,21 +37,32 @@ THEOREMS = [
     "BeyondVerif.CentralDiff.central_difference_exact_quadratic",
     "BeyondVerif.C18W.two_centres_consistent",
     "BeyondVerif.C18W.two_centres_wrong",
+    "BeyondVerif.C18W.asframe_reframed_consistent",
+    "BeyondVerif.C18W.asframe_reframed_wrong",
 ]
 LEVEL_TEXT = ("Lean theorems about a model of create_frames / JplPropagator.propagate / Center.convert_to / Frame.transform (routing = the Node model of C20; "
               "jplephem segment values are a parameter): for EVERY kernel in which no body is the target of two centres, all segment values deriving from one "
               "position per body (proved to exist for every kernel grown segment by segment), every ordered pair of bodies and every fuel, the vector returned by "
               "get_orbit(a).copy(frame=b) and by re-framing a zero state vector is the position/velocity of a relative to b in m, m/s, equals the signed sum of the "
               "file's segments along a chain of kernel links, and a->b = -(b->a); for the DE403 kernel of the test data (pairs regenerated from the file each run) all "
-              "256 ordered pairs are routed (kernel decide) and return exactly that vector; independence of the PCK constants. Sun/Moon: the two series are translated "
+              "256 ordered pairs are routed (kernel decide) and return exactly that vector; independence of the PCK constants. Every public route and histories: a JplPropagator "
+              "built by hand for the reverse of a segment returns minus the direct one in all six components (spk_propagator_reverse) and, either way, position and velocity of the "
+              "first body relative to the second (spk_propagator_either_direction); conversions between any frames, kernel bodies or frames made with Orbit.as_frame/orbit2frame, add "
+              "the difference of the centres' positions, the frame made from the orbit of a body as seen from either end of its segment (a non-Earth centre) being centred on that body "
+              "(spk_attached_frames, spk_as_frame); in EVERY world - whatever objects the caller holds, however he modified them in place, whatever admissible frames he attached - a "
+              "request returns the vector the property states, a function of the kernel and the segment values at its date only (history_independent: the model, like the code, keeps no "
+              "memory between requests); orb.frame = b leaves in orb what orb.copy(frame=b) returns, still the position of its body (inplace_is_copy, object_tracks_body). Sun/Moon: the two series are translated "
               "from solarsystem.py on every run; for every T the position is distance x unit vector with the distance inside the range of its series, the velocity "
               "entries are the symmetric difference quotient of the positions, whose distance from the derivative is bounded by h^2/6 sup|f3| (general theorem, "
               "instantiated to the two steps read from the classes). The model is tied to the code by a differential correspondence on all ordered pairs of the real "
-              "kernel with and without PCK files, on synthetic kernels installed in place of the file, and on the two propagators.")
+              "kernel with and without PCK files, on synthetic kernels installed in place of the file, on the two propagators, and on histories of requests driven through the real objects "
+              "(get_orbit / get_propagator / Body.propagate / hand-made propagators in both directions of every segment, in-place frame, form and value changes of the answers, copies, "
+              "as_frame of the answers, Center.convert_to, repeated and interleaved dates and bodies) against the Lean state machine `run` fed with the same segment values.")
 LEVEL_NOTE = ("proof (partial): the first sentence of the property - agreement of the analytical series with the JPL DE ephemeris to 0.02 deg / 1e-4 (Sun), 0.7 deg / 0.5 % (Moon) - "
               "relates a formula to the contents of a binary data file; no theorem expresses it, it is exercised by the oracle only (DE403, 2000-2020 grid). "
               "R -> double gap covered only by tolerance-bounded correspondence (1e-12 SPK, 1e-10 series). Kernels where a body is the target of two centres are "
-              "excluded by hypothesis (open finding C18-two-centres, kernel-checked counter-witness). Totality (a vector IS returned) is proved for the DE403 kernel only; "
+              "excluded by hypothesis (open finding C18-two-centres, kernel-checked counter-witness); so are frames made with as_frame from an orbit that was re-framed before "
+              "(hypothesis AttOK, open finding C18-asframe-reframed, kernel-checked counter-witness). Totality (a vector IS returned) is proved for the DE403 kernel only; "
               "for arbitrary trees it rests on C20's open forest-routing obligation.")
 TECHNIQUE = ("Lean 4 proof: induction over the routed path (telescoping of potentials) on top of C20's path_valid_chain; decide on the regenerated kernel; "
              "ring/linear_combination identities on series translated from the Python AST; Mathlib calculus for the difference-quotient bound; differential correspondence")
@@ -62,12 +80,15 @@ ASSUMPTIONS = [
     "the built-in Earth centre hangs below the kernel's Earth through a zero offset (the create_frames epilogue); modelled by identifying the two",
     "segments are of the position-only type (len(pos) == 3: velocity in km/day divided by 86400); the len(pos) == 6 branch of propagate is not modelled (no such segment in DE kernels)",
     "create_frames is called once per process (the harness runs each configuration in its own process)",
+    "frames made with as_frame get names no kernel body has (Fresh), each name used once per process (re-using a name overwrites the class attribute <name>_to_<parent>; not modelled)",
+    "in-place changes of form (orb.form = 'spherical') do not move the point an object represents: they are applied to the real objects and skipped in the model (compared at 1e-8 afterwards)",
     "velocity_error_at_steps takes the position coordinate as a function of uniform time; the scale's Julian century is not exactly uniform in UTC (UT1, TDB periodic terms: < 1e-8 relative)",
 ]
 NOT_COVERED = [
     "agreement of the analytical Sun and Moon series with the JPL DE ephemeris (0.02 deg, 1e-4; 0.7 deg, 0.5 %): formula vs binary data file - oracle only (DE403 2000-2020)",
     "a bound on the third derivative of the two series (needed to turn velocity_error_at_steps into a number): oracle only (numerical third differences)",
     "dates outside the span of the kernel (jplephem raises) and kernels with several time-sliced segments for one (center, target) pair",
+    "Ephem.as_frame (interpolated offsets) and the QSW/TNW orientations of orbit2frame (C02); jpl.get_body(name) without PCK files raises UnknownBodyError for every name (no vector is returned; the route Body.propagate is exercised through get_frame(name).center.body, and through get_body when PCK files are configured)",
 ]
 OPEN = [
     "totality for arbitrary tree kernels (a path is always found): proved by decide for the DE403 kernel, otherwise inherited from C20's open forest_routes_exact",
@@ -78,6 +99,9 @@ RULE = ("correspondence: every ordered pair of the 16 bodies of de403_2000-2020.
         "{get_orbit(a).copy(frame=b), zero state vector re-framed} x {with, without PCK files} and random synthetic tree kernels (2-8 bodies, rooted and arbitrarily "
         "oriented, random order) installed in place of the file, real code vs the compiled Lean model fed with the same jplephem segment values (rtol 1e-12, same error kinds); "
         "Sun/Moon propagate vs the translated series + difference quotient at 1950-2050 dates (rtol 1e-10); non-trivial = a != b; distinct = distinct (kernel, op, a, b, date). "
+        "histories: per configuration one exhaustive family (every segment through a hand-made propagator in both directions; the frame made from the orbit of every body against every "
+        "body both ways; every body asked twice at one date with an in-place conversion of the first answer in between) and random histories of 36 requests over 1-3 dates, in both the "
+        "correspondence (vs the Lean `run`, 1e-11 of the terms summed) and the oracle (vs the segments chained in the harness, 4e-12; 1e-8 after a change of form). "
         "oracle: the same calls against chaining the segments directly with jplephem (1e-12 of the summed magnitudes), antisymmetry, TDB argument, bit-identity with/without PCK, "
         "synthetic kernels; Sun/Moon vs DE403 at the property's accuracies, velocity vs derivative of the position within the theorem's bound")
 
@@ -714,18 +738,26 @@ def spec_history(rec):
     pairs = [tuple(p) for p in rec["pairs"]]
     raws = [{tuple(int(x) for x in key.split("-")): v for key, v in raw.items()} for raw in rec["raw"]]
     body = {}       # attached frame -> the body it is centred on
-    bad = set()     # attached frames made from an orbit that was no longer in the frame of its propagator
+    bad = {}        # attached frames made from an orbit that was no longer in the frame of its propagator -> (link, obj, cen)
     for x, link, obj, cen in rec["att0"]:
         body[x] = obj
         if link != cen:
-            bad.add(x)
+            bad[x] = (link, obj, cen)
 
     def rel(k, a, b):
         ta = a in bad or b in bad
+        extra = [0.0] * 6
+        for x in (a, b):
+            # a repaired orbit2frame reaches such a frame through link -> cen -> obj: its rounding scales with those terms
+            if x in bad:
+                link, obj, cen = bad[x]
+                for u, w in ((body.get(link, link), cen), (obj, cen)):
+                    m = chain_direct(pairs, raws[k], u, w)[1]
+                    extra = [p + q for p, q in zip(extra, m or extra)]
         a = body.get(a, a)
         b = body.get(b, b)
         v, m = chain_direct(pairs, raws[k], a, b)
-        return v, m, ta
+        return v, (None if m is None else [p + q for p, q in zip(m, extra)]), ta
 
     objs = []
     res = []
@@ -775,7 +807,7 @@ def spec_history(rec):
             x = int(t[2])
             body[x] = o["obj"]
             if o["frame"] != o["cen"]:
-                bad.add(x)
+                bad[x] = (o["frame"], o["obj"], o["cen"])
             res.append((o["vec"], o["mag"], o["taint"]))
         else:
             raise RuntimeError("unknown request " + name)
